@@ -131,6 +131,23 @@ fn walk(f: &[u8], is_key: bool, tables: &Tables, max_slots: usize) -> (Vec<Value
                 pad = all_zero(f, after, end);
             }
         }
+        // bytes the record needs counted from the start of its slot, whether or not they fit the slot
+        // (-1: no record can be read here at all): a record that needs more than its slot has spilled
+        // into the piece behind it (C09)
+        let mut need: i64 = -1;
+        if len != u64::MAX && (q2 as u64).saturating_add(len) <= f.len() as u64 {
+            let after = q2 + len as usize;
+            if is_key {
+                if let Some((_, q3)) = vu64_decode(f, after) {
+                    if let Some((_, q4)) = vu64_decode(f, q3) {
+                        need = (q4 - p) as i64;
+                    }
+                }
+            } else {
+                need = (after - p) as i64;
+            }
+        }
+        o.insert("need".into(), json!(need));
         o.insert("len".into(), json!(lenv));
         o.insert("id".into(), json!(id));
         o.insert("voff".into(), json!(voff));
